@@ -155,7 +155,7 @@ func GenCActions(n int, minLen, maxLen int) *rapid.Generator[[]CAction] {
 		return e
 	})
 	one := rapid.Custom(func(t *rapid.T) CAction {
-		a := CAction{Kind: rapid.SampledFrom([]string{"new", "new", "edit", "edit", "edit", "edit", "edit", "push", "push", "pull", "pull", "pull", "remove", "cachesize", "reopen", "rebuild", "newident", "mutident"}).Draw(t, "kind"),
+		a := CAction{Kind: rapid.SampledFrom([]string{"new", "new", "edit", "edit", "edit", "edit", "edit", "push", "push", "pull", "pull", "pull", "remove", "cachesize", "reopen", "rebuild", "gc", "newident", "mutident"}).Draw(t, "kind"),
 			R: rapid.IntRange(0, n-1).Draw(t, "r"), Time: rapid.Int64Range(1_000_000, 2_000_000_000).Draw(t, "time")}
 		switch a.Kind {
 		case "new":
@@ -325,6 +325,24 @@ func (w *CWorld) Exec(a CAction) (res CExecResult, err error) {
 		if err := w.Reopen(r); err != nil {
 			return res, &ExecError{"reopen/" + Normalize(err.Error()), err.Error()}
 		}
+		res.Reopened = true
+	case "gc":
+		// between two sessions the user's git collects garbage: objects and refs get packed
+		if err := r.Cache.Close(); err != nil {
+			return res, &ExecError{"close/" + Normalize(err.Error()), err.Error()}
+		}
+		if g := RunGit(r.Path, "gc", "-q", "--prune=now"); g.Code != 0 {
+			return res, &ExecError{"stock-git-gc-fails/" + Normalize(g.Out), g.Out}
+		}
+		repo, err := repository.OpenGoGitRepo(r.Path, "git-bug", nil)
+		if err != nil {
+			return res, err
+		}
+		nrc, err := cache.NewRepoCacheNoEvents(repo)
+		if err != nil {
+			return res, &ExecError{"open-after-gc/" + Normalize(err.Error()), err.Error()}
+		}
+		r.Repo, r.Cache = repo, nrc
 		res.Reopened = true
 	case "rebuild":
 		// the cache files are lost (or of an older format): the next open builds the cache from git, and the
